@@ -40,12 +40,12 @@ def check(pid, tier):
         return any(a["k"] in ("fixed", "topull", "topush") for k in c["comps"] for lk in k["ins"] for a in lk["chain"])
     # (chain3p, pullring: a delay adapter behind a pull-based component that has inputs itself)
     # (pulltwice: one pull-based output read through links with different delays)
-    for fam in (["pair", "ring2", "chain3d", "chain3p", "pullring", "pulltwice"] if tier == "quick"
-                else ["pairL", "pair3", "ring2", "ring3", "ringbreak", "chain3d", "chain3p", "pullring", "pullringtail", "pulltwice"]):
+    for fam in (["pair", "ring2", "chain3d", "chain3p", "pullring", "pulltwice", "fanoutshared"] if tier == "quick"
+                else ["pairL", "pair3", "ring2", "ring3", "ringbreak", "chain3d", "chain3p", "pullring", "pullringtail", "pulltwice", "fanoutshared", "fanout3shared"]):
         got = tlc.emit("SchedEmit", {"FAMILY": fam})
         if fam == "pairL":
             got = [c for c in got if "chained_delays" in check_sched.features(c)]
-        elif fam in ("chain3p", "pullring", "pullringtail"):
+        elif fam in ("chain3p", "pullring", "pullringtail", "fanoutshared", "fanout3shared"):     # (one delay adapter shared by two readers)
             got = [c for c in got if has_delay(c)]
         cfgs += got
     import random
